@@ -169,7 +169,7 @@ def wire_cfg(cfg):
     def inf(i):
         return [int(i["self"]), [[S(p), O(o, S)] for p, o in i["table"]]]
     return [int(cfg["oip"][0]), int(cfg["oip"][1]), int(cfg["cs"][0]), int(cfg["cs"][1]), 1000, 1000,
-            inf(cfg["info"][0]), inf(cfg["info"][1])]
+            inf(cfg["info"][0]), inf(cfg["info"][1]), int(bool(cfg.get("legacy", False)))]
 
 
 # ------------------------------------------------------------------ the real side
@@ -572,7 +572,9 @@ def run(ctx):
             got = None
             if r["err"] == 0:
                 got = "RecursionError"
-            elif r["refuted"]:
+            elif r["refuted"] and not doc.get("regression"):
+                # (regression cases of fixed defects are only about their own failure: exception or a
+                # claimed clause; intermediate states may still show the open changeset finding)
                 got = r["refuted"][-1][1].split(":")[0]
             elif r["claimed"]:
                 got = r["claimed"][-1][1].split(":")[0]
